@@ -160,6 +160,11 @@ func (collection *linkCollectionImpl) SetLinks(tx *bbolt.Tx, id string, keys []s
 
 func (collection *linkCollectionImpl) EntityDeleted(tx *bbolt.Tx, id string) error {
 	bId := []byte(id)
+	if collection.field.GetStore().GetEntityBucket(tx, bId) == nil {
+		// an entity of the parent store which has no data in this (extended) child store: it has no links in this
+		// collection either, there is nothing to clean up
+		return nil
+	}
 	fieldBucket := collection.getFieldBucketForStringId(tx, id)
 
 	if !fieldBucket.HasError() {
